@@ -121,3 +121,62 @@ fn parse_inner(text: &str) -> Value {
         .collect();
     json!({"units": units, "diagnostics": diags})
 }
+
+/// {"bytes": [..]} -> lexemes and kinds of both lexers on the same Latin-1 bytes
+pub fn two_lexers(case: &Value) -> Value {
+    let bytes: Vec<u8> = case["bytes"].as_array().unwrap().iter().map(|b| b.as_u64().unwrap() as u8).collect();
+    // vhdl_syntax
+    let mut syntax_err = false;
+    let mut syntax_kinds = Vec::new();
+    let mut syntax_lexemes = Vec::new();
+    let mut directive = false;
+    for (t, e) in vhdl_syntax::tokens::TokenStream::from(&bytes[..]) {
+        if e.is_some() {
+            syntax_err = true;
+        }
+        use vhdl_syntax::tokens::TokenKind;
+        match t.kind() {
+            TokenKind::Eof => continue,
+            TokenKind::ToolDirective => directive = true,
+            _ => {}
+        }
+        let k = match t.kind() {
+            TokenKind::Keyword(kw) => format!("Keyword:{:?}", kw),
+            other => format!("{:?}", other),
+        };
+        syntax_kinds.push(k);
+        syntax_lexemes.push(t.text().as_bytes().to_vec());
+    }
+    // vhdl_lang
+    let text: String = bytes.iter().map(|b| *b as char).collect();
+    let (tokens, diagnostics) = vh::tokenize(&text);
+    let chars: Vec<char> = text.chars().collect();
+    // one char per byte and no astral chars: the column is the char index within the line
+    let mut line_start = vec![0usize];
+    let mut i = 0;
+    while i < chars.len() {
+        if chars[i] == '\n' {
+            line_start.push(i + 1);
+        } else if chars[i] == '\r' {
+            if i + 1 < chars.len() && chars[i + 1] == '\n' {
+                i += 1;
+            }
+            line_start.push(i + 1);
+        }
+        i += 1;
+    }
+    let idx = |p: vhdl_lang::Position| line_start.get(p.line as usize).map(|s| s + p.character as usize).unwrap_or(chars.len());
+    let mut lang_kinds = Vec::new();
+    let mut lang_lexemes = Vec::new();
+    for t in &tokens {
+        let k = format!("{:?}", t.kind);
+        if k == "GraveAccent" {
+            directive = true;
+        }
+        lang_kinds.push(k);
+        let (s, e) = (idx(t.pos.range.start), idx(t.pos.range.end));
+        lang_lexemes.push(bytes[s.min(bytes.len())..e.min(bytes.len())].to_vec());
+    }
+    json!({"syntax_kinds": syntax_kinds, "syntax_lexemes": syntax_lexemes, "syntax_err": syntax_err,
+           "lang_kinds": lang_kinds, "lang_lexemes": lang_lexemes, "lang_err": !diagnostics.is_empty(), "directive": directive})
+}
